@@ -131,6 +131,15 @@ def decl_forms(S):
         ['define-fun', 'f', [], S, 'v'],
         ['define-fun', 'f', [['a', S]], 'Bool', 'true'],
         ['define-sort', 'N', [], S],
+        # the other commands of SMT-LIB 2.6 that declare or define a symbol
+        # with a sort: recursive definitions, datatype selectors
+        ['define-fun-rec', 'f', [['a', S]], 'Bool', ['f', 'a']],
+        ['define-fun-rec', 'f', [['a', 'Bool']], S, ['f', 'a']],
+        ['define-funs-rec', [['f', [['a', S]], 'Bool']], [['f', 'a']]],
+        ['define-funs-rec', [['f', [], 'Bool'], ['g', [['a', 'Bool']], S]],
+         ['true', ['g', 'a']]],
+        ['declare-datatype', 'T', [['mk', ['fld', S]]]],
+        ['declare-datatypes', [['T', '0']], [[['c'], ['mk', ['fld', S]]]]],
     ]
 
 
